@@ -5,6 +5,9 @@ package ontid
 // signer set is installed through the transaction's SignedAddr (what CheckWitness reads).  After every step
 // the storage of every identity is read back (state flag, key list with revoked / authentication flags,
 // controller, recovery, attribute keys).
+// Input field "pre": the calls run at block height config.GetNewOntIdHeight()-1 (the model's NewOntId = FALSE:
+// only the old methods are registered, version-0 key records); the read-back always uses the new height, whose
+// readers decode both storage versions.
 
 import (
 	"fmt"
@@ -61,6 +64,7 @@ type oAct struct {
 	Idx     uint64    `json:"idx"`
 	Target  uint64    `json:"target"`
 	Attr    string    `json:"attr"`
+	Attrs   []string  `json:"attrs"`
 	Op      *oOp      `json:"op"`
 	Ctrl    *oBody    `json:"ctrl"`
 	Group   *oBody    `json:"group"`
@@ -76,6 +80,7 @@ type oPath struct {
 type oInput struct {
 	Ids   []string `json:"ids"`
 	Keys  []string `json:"keys"`
+	Pre   bool     `json:"pre"`
 	Paths []oPath  `json:"paths"`
 }
 
@@ -144,8 +149,15 @@ func newOWorld(in *oInput) *oWorld {
 }
 
 func (w *oWorld) service(cache *storage.CacheDB, signers []common.Address, pushSelf bool) *smartcontract.SmartContract {
+	height := config.GetNewOntIdHeight() + 100
+	if w.in.Pre && !pushSelf { // pushSelf = the read-back service
+		if config.GetNewOntIdHeight() == 0 {
+			panic("no height below the new-ONT-ID fork height on this network id")
+		}
+		height = config.GetNewOntIdHeight() - 1
+	}
 	sc := &smartcontract.SmartContract{
-		Config:  &smartcontract.Config{Time: 1600000000, Height: config.GetNewOntIdHeight() + 100, Tx: &types.Transaction{SignedAddr: signers}},
+		Config:  &smartcontract.Config{Time: 1600000000, Height: height, Tx: &types.Transaction{SignedAddr: signers}},
 		CacheDB: cache, Gas: 1 << 60,
 	}
 	if pushSelf {
@@ -209,9 +221,15 @@ func (w *oWorld) opBytes(op *oOp) []byte {
 	return w.pks[op.Key]
 }
 
+func oAttrs(sink *common.ZeroCopySink, names []string) {
+	utils.EncodeVarUint(sink, uint64(len(names)))
+	for _, name := range names {
+		(&attribute{key: []byte(name), valueType: []byte("t"), value: []byte("v")}).Serialization(sink)
+	}
+}
+
 func oAttr(sink *common.ZeroCopySink, name string) {
-	utils.EncodeVarUint(sink, 1)
-	(&attribute{key: []byte(name), valueType: []byte("t"), value: []byte("v")}).Serialization(sink)
+	oAttrs(sink, []string{name})
 }
 
 func (w *oWorld) apply(a oAct) (string, string) {
@@ -227,6 +245,10 @@ func (w *oWorld) apply(a oAct) (string, string) {
 	case "RegPk":
 		method = "regIDWithPublicKey"
 		sink.WriteVarBytes(w.pks[a.Key])
+	case "RegAttrs":
+		method = "regIDWithAttributes"
+		sink.WriteVarBytes(w.pks[a.Key])
+		oAttrs(sink, a.Attrs)
 	case "RegCtrl":
 		method = "regIDWithController"
 		if a.Ctrl.Kind == "id" {
